@@ -239,8 +239,9 @@ Fixpoint py_digits_fuel (fuel : nat) (n : Z) (acc : list Z) : list Z :=
 Definition py_digits (n : Z) : list Z := py_digits_fuel (S (Z.to_nat (Z.log2 n))) n [].
 (* str(n) / "{0}".format(n): ValueError when n has more than int_max_str_digits digits *)
 Definition py_str_int (n : Z) : res (list Z) :=
-  if 10 ^ py_int_max_str_digits <=? Z.abs n then Crash ValueError
-  else Ok (if n <? 0 then 45 :: py_digits (- n) else py_digits n).
+  let d := py_digits (Z.abs n) in
+  if py_int_max_str_digits <? zlen d then Crash ValueError
+  else Ok (if n <? 0 then 45 :: d else d).
 
 (* l * n for a list *)
 Definition py_list_repeat {A} (l : list A) (n : Z) : list A := concat (repeat l (Z.to_nat n)).
@@ -272,6 +273,20 @@ Definition py_tuple2_update {A} (t : A * A) (i : Z) (v : A) : res (A * A) :=
   | Some _ => Ok (fst t, v)
   | None => Crash IndexError
   end.
+
+(* x.append(v) where x is a list or None: AttributeError on None *)
+Definition py_opt_append {A} (o : option (list A)) (v : A) : res (option (list A)) :=
+  match o with Some l => Ok (Some (l ++ [v])) | None => Crash AttributeError end.
+
+(* int(n ** (1 / 2)): the binary64 square root truncated.  Modelled as the integer square root for 0 <= n < 2^52
+   (there the float result is exact for perfect squares and never reaches the next integer otherwise); no position
+   outside *)
+Definition py_int_sqrt_float (n : Z) : res Z :=
+  if (0 <=? n) && (n <? 2 ^ 52) then Ok (Z.sqrt n) else Crash Unmodelled.
+
+(* tuple(l) where a pair is expected (Position.stones): modelled for two elements only *)
+Definition py_tuple2_of_list {A} (l : list A) : res (A * A) :=
+  match l with [a; b] => Ok (a, b) | _ => Crash Unmodelled end.
 
 (* ---------- game.Config / Position(...) ---------- *)
 (* cls(size=, ply=, stones=, board=) over model/Tak.v's flat record *)
